@@ -31,6 +31,11 @@ def repeat(a, repeats, axis=None):
         # nothing to repeat along an empty axis (and no slab to concatenate)
         return a
 
+    # The slabs below are cut at this layout's block boundaries and each is
+    # given explicit output chunks: pin the layout, so that the slabs keep the
+    # blocks they were measured with whatever optimization does to ``a``.
+    a = a.freeze_chunks()
+
     cchunks = cached_cumsum(a.chunks[axis], initial_zero=True)
     slices = []
     for c_start, c_stop in sliding_window(2, cchunks):
